@@ -200,6 +200,15 @@ def no_rewriter_stage(ctx: Ctx) -> Result:
                     res.violate(Violation(ID, "loose", "no-rewriter:" + how.split(" ")[0], case, f"{how}: the return annotation {fis[0].returns_src!r} denotes {O.show(R)}, the inferred type (no rewriter asked for) is {O.show(direct)}"))
                 else:
                     res.nontrivial_n += 1
+    # long containers typed AFTER tracers have existed in this process (whatever a tracing session leaves behind must not
+    # change how values are typed): the deviating element comes late
+    for e in ("[{'a': 0, 'b': 0}] * 4200 + [{'a': 0}]", "[{'a': 0}] * 5000 + [{'a': 'x', 'b': 0}]", "{0} | {('t', i) for i in range(4200)} | {None}"):
+        vals = [V.ev(e)]
+        for k in (3,):
+            res.states += 1
+            case = {"values": [e], "k": k, "family": "no-rewriter", "hi": -1, "long": True}
+            T_long = get_type(vals[0], k)
+            judge(res, case, vals, lambda p, T_long=T_long: ("ok", T_long), k, get_type, shrink_types)
     res.oblige("no-rewriter-entry-points", True)
     return res
 
